@@ -30,9 +30,15 @@ theorem validate_ok_iff (I : Inst) (hV : I.Valid) (P : Packing) :
     exact ⟨h1, h2, h3, ⟨hV.1, hV.2.1, hV.2.2.1, hV.2.2.2.1⟩,
       (checks_iff_feasible I hV P.rowsR P.nBins hlen).mpr h4⟩
 
-/-- the `acc=` token of the driver (`decide (Accepts I P)`) is the right-hand side above -/
+/-- the `acc=` token of the driver (`acceptsB I P`, the guarded Boolean form of `Accepts`, i.e. of the
+right-hand side above) is true exactly when the validator model accepts -/
 theorem accepts_iff_validate (I : Inst) (hV : I.Valid) (P : Packing) :
-    Accepts I P ↔ validate I P = .ok () := (validate_ok_iff I hV P).symm
+    acceptsB I P = true ↔ validate I P = .ok () :=
+  (acceptsB_iff I P).trans (validate_ok_iff I hV P).symm
+
+/-- every instance the constructor accepts has a storage type: `create()` yields a packing and
+the "integer type" clause of the property can be met (the `dtype` branch of `fromStr` is dead). -/
+theorem dtype_exists (I : Inst) (hV : I.Valid) : ∃ t, I.dtype? = some t := dtype?_isSome' I hV
 
 /-- **Checking only the ids that occur suffices** (the `Counter` holds no entry for an id that
 never occurs): with valid ids, `n_items = Σ rep` rows and every repetition ≥ 1, "each occurring
